@@ -457,7 +457,9 @@ func (w *World) driverSolo(rounds int, ext bool) {
 			// proposed with POLRound = the previous round (whatever that round's polka was for); the stale polka
 			// arriving only AFTER x has prevoted in this round (stale == 2); prevote pattern (4): the polka for x's
 			// locked block completes only after x has left the round (one prevote in time, two in the next round)
-			nProp, nStale, nPrev = 5, 3, 5
+			// (5) a fresh INVALID block (wrong application hash) with its data: x validates it, refuses it, and shape (3) of a
+			// later round offers the same block again
+			nProp, nStale, nPrev = 6, 3, 5
 		}
 		if proposer == x {
 			nProp = 1
@@ -507,7 +509,11 @@ func (w *World) driverSolo(rounds int, ext bool) {
 				}
 			}
 		} else if sp > 0 {
-			bi := w.byzBlock(proposer, x, fmt.Sprintf("F%d", r))
+			name := fmt.Sprintf("F%d", r)
+			if sp == 5 {
+				name = fmt.Sprintf("I%d", r)
+			}
+			bi := w.byzBlock(proposer, x, name)
 			if bi != nil {
 				pol := uint32(0)
 				if sp == 4 && round > 1 {
